@@ -158,7 +158,9 @@ func ParsePkScript(pkScript []byte, chainParams *config.Params) (PkScript, error
 			ret.maturity = consensus.MASSIP0002BindingLockedPeriod
 		}
 		if err != nil {
-			return nil, err
+			// consensus only checks the length of a binding target; one that has no
+			// address form cannot be handled by the wallet: callers skip these
+			return nil, ErrUnsupportedScript
 		}
 	default:
 		return nil, ErrUnsupportedScript
